@@ -17,6 +17,9 @@ RULE = ("structured transactions (0..40 inputs/outputs with scripts from the C02
         "has the top bit set in every width (as values, counts, lengths), ids with leading/trailing zero bytes, transaction ids "
         "with leading/trailing zero bytes, every getter incl. *_as_bytes, *_hex and both endianness options on every parsed "
         "transaction, from_hex (both cases) against from_bytes, and the "
+        "call histories on one Transaction object (tx.mutate: observe id/size/bytes/accessors, again, on a clone, then after each of "
+        "set_version / set_nlocktime (on the object and on the returned clone), add/prepend/insert/set input and output, "
+        "get_input + each TxIn setter + set_input, clone, alone and in sequences, each observation compared with a fresh parse), "
         "compact-size writers/readers/helper on both sides of 252/253, 65535/65536, 2^32-1/2^32 and at 2^64-1; "
         "non-trivial = the implementation model accepts the input; distinct by (op, arguments)")
 TRUSTED = ["hand-written Gallina models coq/Model/Tx.v, coq/Model/VarInt.v (and coq/Model/Script.v of C02) of "
@@ -216,6 +219,72 @@ def ext_build_args(ver, ins, outs, lt, rng, p_annot=0.6):
     for o in outs:
         a += [str(o.value), o.script]
     return a
+
+
+def hist_id(rng):
+    return "l:%d:32" % rng.randrange(1, 2 ** 31) if rng.random() < 0.7 else bytes(rng.randrange(256) for _ in range(32)).hex()
+
+
+def hist_in_fields(rng):
+    if rng.random() < 0.08:
+        return ["r:00:32", "4294967295", bytes(rng.randrange(256) for _ in range(rng.randrange(1, 6))).hex(), "-"]
+    return [hist_id(rng), str(r32(rng)), good_script(rng, 1, rng.randrange(0, 3)).hex(), "-" if rng.random() < 0.3 else str(r32(rng))]
+
+
+def hist_out_fields(rng):
+    return [str(r64(rng, True)), good_script(rng, 1, rng.randrange(0, 3)).hex()]
+
+
+def hist_step(rng, kind, nin, nout):
+    """one step of a call history (tx.mutate) and the counts after it; None when the step needs an item that is not there"""
+    if kind in ("sv", "svc", "sl", "slc"):
+        return "%s,%d" % (kind, r32(rng)), nin, nout
+    if kind in ("ai", "pi"):
+        return ",".join([kind] + hist_in_fields(rng)), nin + 1, nout
+    if kind == "ii":
+        return ",".join([kind, str(rng.randrange(nin + 1))] + hist_in_fields(rng)), nin + 1, nout
+    if kind == "si":
+        if nin == 0:
+            return None
+        return ",".join([kind, str(rng.randrange(nin))] + hist_in_fields(rng)), nin, nout
+    if kind in ("ao", "po"):
+        return ",".join([kind] + hist_out_fields(rng)), nin, nout + 1
+    if kind == "io":
+        return ",".join([kind, str(rng.randrange(nout + 1))] + hist_out_fields(rng)), nin, nout + 1
+    if kind == "so":
+        if nout == 0:
+            return None
+        return ",".join([kind, str(rng.randrange(nout))] + hist_out_fields(rng)), nin, nout
+    if kind.startswith("gi"):
+        if nin == 0:
+            return None
+        fld = kind[2:]
+        val = {"vo": lambda: str(r32(rng)), "sq": lambda: str(r32(rng)), "sa": lambda: str(r64(rng)),
+               "id": lambda: hist_id(rng), "us": lambda: good_script(rng, 1, rng.randrange(0, 3)).hex(),
+               "ls": lambda: lock_script(rng) if rng.random() < 0.5 else "76a914+r:11:20+88ac"}[fld]()
+        return "gi,%d,%s,%s" % (rng.randrange(nin), fld, val), nin, nout
+    return kind, nin, nout          # cl / ob
+
+
+HIST_KINDS = ["sv", "svc", "sl", "slc", "ai", "pi", "ii", "si", "ao", "po", "io", "so",
+              "givo", "gisq", "gisa", "giid", "gius", "gils", "cl", "ob"]
+
+
+def hist_base(rng, nin, nout):
+    ins = [In(hist_id(rng), r32(rng), good_script(rng, 1, rng.randrange(0, 3)).hex(), r32(rng)) for _ in range(nin)]
+    outs = [Out(r64(rng, True), good_script(rng, 1, rng.randrange(0, 3)).hex()) for _ in range(nout)]
+    return tx_wire(r32(rng), ins, outs, r32(rng))
+
+
+def hist_case(rng, base, nin, nout, kinds):
+    steps = []
+    for k in kinds:
+        r = hist_step(rng, k, nin, nout)
+        if r is None:
+            continue
+        st, nin, nout = r
+        steps.append(st)
+    return ("tx.mutate", [base] + steps)
 
 
 ALT = ["bulk", "default", "prepend", "insert", "set", "clone"]
@@ -523,6 +592,28 @@ def generate(rng, tier):
         h = txid_with(pred)
         if h:
             P(h)
+
+    # ---------------------------------------------------------------- call histories on one Transaction object (tx.mutate)
+    # observe; observe again; observe a clone; then after every public mutator in turn; compare with a fresh parse
+    bases = [(hist_base(rng, 2, 2), 2, 2), (hist_base(rng, 1, 1), 1, 1), (FIXED[1], 1, 1), (hist_base(rng, 0, 0), 0, 0)]
+    for (base, ni, no) in bases[:3]:
+        for k in HIST_KINDS:
+            cases.append(hist_case(rng, base, ni, no, [k]))              # every mutator alone, right after the first reads
+    for k in ["sv", "svc", "sl", "slc", "ai", "ao", "cl", "ob"]:
+        cases.append(hist_case(rng, bases[3][0], 0, 0, [k]))
+    for k1 in ["sv", "svc", "sl", "slc"]:
+        for k2 in ["sv", "sl", "svc", "slc", "ai", "ao", "gisq", "cl"]:
+            cases.append(hist_case(rng, bases[0][0], 2, 2, [k1, k2]))    # header edit followed by another edit, and the reverse
+            cases.append(hist_case(rng, bases[0][0], 2, 2, [k2, k1]))
+    for _ in range(600 if thorough else 60):
+        ni, no = rng.randrange(0, 4), rng.randrange(0, 4)
+        cases.append(hist_case(rng, hist_base(rng, ni, no), ni, no, [rng.choice(HIST_KINDS) for _ in range(rng.randrange(1, 6))]))
+    cases.append(("tx.mutate", [FIXED[0], "sl,500000", "gi,1,sq,0", "sv,2", "so,0,1000,76a914+r:11:20+88ac"]))
+    cases.append(("tx.mutate", [FIXED[0] + "00", "sl,1"]))                                           # trailing byte: non-canonical start
+    cases.append(("tx.mutate", [tx_wire(1, [In("l:3:32", 0, "0501", 0)], [Out(1, "51")], 0), "sv,2"]))   # C02's class
+    cases.append(("tx.mutate", [tx_wire(1, [In("l:3:32", 0, "51", 0)], [Out(2 ** 63, "51")], 0), "ao,9223372036854775808,51", "sl,7"]))  # total reaches 2^64
+    cases.append(("tx.mutate", [hist_base(rng, 1, 1), "ao,1,63"]))                                   # not a script
+    cases.append(("tx.mutate", [hist_base(rng, 1, 1)]))
 
     # ---------------------------------------------------------------- outpoints
     for d in ["", "00", "r:00:35", "r:00:36", "r:00:37", "l:5:36", "l:6:36", "r:ff:36", "l:7:35", "l:7:37", "l:7:72"]:
